@@ -265,6 +265,35 @@ def decision_patterns(hbin, scr, sd):
     return rec, len(behs)
 
 
+def signer_list_anomalies(hbin, scr, sd):
+    """Governance installs signer lists with a blank entry (trailing, leading, doubled separator), with white space, with a
+    duplicate - each must be refused or stored as the rules say (C16) -, then an order collects exactly the critical number
+    of rejections (more than signers - MinAccepts) and, later, accepts of the others: "authorised signers" are the real
+    ones whatever the list looks like (C03 tally, C02 mint)."""
+    import vlib
+    g = {"accts": ["A1", "A2", "A3", "A4"], "bal": {a: {"nund": 100, "other": 100} for a in ("A1", "A2", "A3", "A4")},
+         "ent": {"signers": ["A1", "A2", "A4"], "min": 2, "limit": 30, "denom": "nund", "wl": ["A3"], "startId": 1},
+         "wrk": {"feeReg": 24, "feeRec": 2, "feePur": 3, "denom": "nund", "def": 2, "max": 4, "startId": 1},
+         "bcn": {"feeReg": 20, "feeRec": 1, "feePur": 5, "denom": "nund", "def": 2, "max": 4, "startId": 1},
+         "str": {"feeNum": 1, "feeDen": 100}}
+    BB, EB, CM = {"a": "BeginBlock", "dt": 1000}, {"a": "EndBlock"}, {"a": "Commit"}
+    tx = lambda *m: {"a": "DeliverTx", "msgs": list(m)}
+    dec = lambda s_, d: tx({"t": "Decide", "signer": s_, "id": 1, "d": d})
+    lists = [["A1", "A2", "A4", ""], ["", "A1", "A2", "A4"], ["A1", "", "A2", "A4"], ["A1", "A2", "A4", "", ""], [" A1", "A2", "A4"],
+             ["A1", "A1", "A2", "A4"], ["A1", "A2", "A4"], ["A1", "A2", ""]]
+    behs = []
+    for ls in lists:
+        p = {"signers": ls, "min": 2, "limit": 30, "denom": "nund"}
+        b = [{"a": "InitChain", "g": g}, BB,
+             tx({"t": "GovProp", "proposer": "V", "msgs": [{"t": "UpdParams", "mod": "ent", "authority": "gov", "p": p}]}, {"t": "Vote", "voter": "V", "id": 1}),
+             EB, CM] + [BB, EB, CM] * 3
+        b += [BB, tx({"t": "Raise", "pur": "A3", "amt": 9, "denom": "nund"}), dec("A1", "reject"), dec("A2", "reject"), EB, CM, BB, EB, CM,
+              BB, dec("A4", "accept"), dec("A3", "accept"), EB, CM] + [BB, EB, CM] * 3
+        behs.append(b)
+    rec, _ = vlib.record_behaviours(hbin, behs, scr, name="signer-list-anomalies")
+    return rec, len(behs)
+
+
 def extreme_amounts(hbin, scr, sd):
     """C14 'extreme amounts': purchase orders of 2^62 ... 2^200 nund (decimal strings; far beyond TLC's integers) raised,
     accepted, minted and locked, partly unlocked by registry fees, with an export/import at the end.  The genesis is
@@ -578,16 +607,16 @@ def c18_custom(pid, tier, plan, scr, hbin, specdir):
 
 
 PLANS = {
-    "C03": dict(mc=both(ENT_MC, ENT_GHOST), extra={"quick": [decision_patterns], "thorough": [decision_patterns]}, sim=ENT_SIM, random=rnd("ent", (300, 3), (2000, 20)),
+    "C03": dict(mc=both(ENT_MC, ENT_GHOST), extra={"quick": [decision_patterns, signer_list_anomalies], "thorough": [decision_patterns, signer_list_anomalies]}, sim=ENT_SIM, random=rnd("ent", (300, 3), (2000, 20)),
                 rule="TLC exhaustive on MC_Ent (all interleavings of raise/decide/whitelist/gov param change/time advance in small scope); behaviours = TLC-simulated schedules + seeded random histories executed on the real app; non-trivial = a recorded step (one ABCI call) validated against Chain!Step and all C03 monitors",
                 assumptions=COMMON_ASSUME),
     "C04": dict(ledger=True, mc=both(FEE_MC, ENT_MC), sim=both(FEE_SIM, ENT_SIM), sweep=FEE_SWEEP, random=rnd("ent", (300, 3), (2000, 20)),
                 rule="TLC exhaustive on MC_Fee (orders completing, then fee-paying registry txs with every relation of locked/liquid to the fee, exact/higher/missing/multi-denomination fees, bad signatures, k-th message failing, sends to escrow); view = locked/spent books, totals, escrow balance, registered module invariant", assumptions=COMMON_ASSUME),
     "C05": dict(ledger=True, mc=both(FEE_MC, FEE_GRANT), sim=FEE_SIM, sweep=FEE_SWEEP, random=both(rnd("ent", (300, 4), (2000, 20)), rnd("mix", (200, 2), (1500, 10))),
                 rule="as C04 plus vesting purchasers in the random histories; monitors: locked drops only by min(fee, locked) in a registry tx of the payer and equals the spent increase; completion never raises spendable", assumptions=COMMON_ASSUME),
-    "C02": dict(ledger=True, mc=both(FEE_MC, ENT_MC), extra={"quick": [decision_patterns], "thorough": [decision_patterns]}, sim=both(FEE_SIM, ENT_SIM), sweep=both(FEE_SWEEP, AUTH_SWEEP), random=rnd("mix", (400, 3), (2500, 20)),
+    "C02": dict(ledger=True, mc=both(FEE_MC, ENT_MC), extra={"quick": [decision_patterns, signer_list_anomalies], "thorough": [decision_patterns, signer_list_anomalies]}, sim=both(FEE_SIM, ENT_SIM), sweep=both(FEE_SWEEP, AUTH_SWEEP), random=rnd("mix", (400, 3), (2500, 20)),
                 rule="supply and sum of ALL balances (iteration incl. unmodelled accounts) after every step of mixed histories; mint/burn events of every ABCI response equal the supply delta; supply changes only in BeginBlock by the completed orders' amounts", assumptions=COMMON_ASSUME),
-    "C13": dict(mc=both(REG_MC, STR_MC, ENT_MC, GRP_MC), sweep=AUTH_SWEEP, random=rnd("mix", (300, 2), (1500, 10)),
+    "C13": dict(mc=both(REG_MC, STR_MC, ENT_MC, GRP_MC, FEE_GRANT), sweep=AUTH_SWEEP, random=rnd("mix", (300, 2), (1500, 10)),
                 rule="TLC breadth-first sweep MC_Auth: every message type x every account as signer x every account as named address in three encodings (foreign key, proper signature, Exec wrapper) from a prepared state; each behaviour replayed on the real app; state digest before/after compared", assumptions=COMMON_ASSUME),
     "C14": dict(mc=both(FEE_MC, ENT_MC, ENT_GHOST), extra={"quick": [extreme_amounts], "thorough": [extreme_amounts]}, sim=both(FEE_SIM, ENT_SIM), sweep=both(FEE_SWEEP, PAR_SWEEP, AUTH_SWEEP), random=rnd("mix", (400, 3), (2500, 20)),
                 rule="begin/end block and commit wrapped in recover (a panic is the observation halted); failed and panicking txs compared on the full projection (only ante effects may remain); multi-message txs with the k-th message failing; extreme amounts (orders of 2^62 ... 2^200 nund as decimal strings, minted, locked, partly unlocked, exported and imported) judged by Trace!ExtremeJudge: no begin/end blocker or commit panics, failed transactions and read-only calls leave every module store byte-identical", assumptions=COMMON_ASSUME),
